@@ -38,7 +38,7 @@ pub mod client {
 
 pub mod server {
     use anyhow::Result;
-    use futures::FutureExt;
+    use anyhow::anyhow;
     use futures::SinkExt;
     use futures::StreamExt;
     use tokio::net::TcpStream;
@@ -56,11 +56,11 @@ pub mod server {
     pub async fn no_auth(stream: &mut TcpStream, response: Socks5CommandResponse) -> Result<Socks5CommandRequest> {
         let (rh, wh) = stream.split();
         let mut reader = FramedRead::new(rh, Socks5InitialRequestDecoder);
-        reader.next().map(Option::unwrap).await?;
+        reader.next().await.ok_or_else(|| anyhow!("closed before the socks5 greeting was complete"))??;
         let mut reader = FramedRead::new(reader.into_inner(), Socks5CommandRequestDecoder);
         let mut writer = FramedWrite::new(wh, Socks5ServerEncoder);
         writer.send(Box::new(Socks5InitialResponse::new(Socks5AuthMethod::NoAuth))).await?;
-        let command_request = reader.next().map(Option::unwrap).await?;
+        let command_request = reader.next().await.ok_or_else(|| anyhow!("closed before the socks5 request was complete"))??;
         writer.send(Box::new(response)).await?;
         Ok(command_request)
     }
